@@ -102,7 +102,7 @@ class Alignment:
           continue
         elif char == ",":
           if version == "gfa2":
-            if not valid and not re.match(r"^[0-9]+(,[0-9]+)*$", string):
+            if not valid and not re.fullmatch(r"^[0-9]+(,[0-9]+)*$", string):
               raise gfapy.FormatError(
                   "Trace alignment contains invalid data {}"
                   .format(repr(string)))
@@ -120,7 +120,7 @@ class Alignment:
       break
     else:
       if not first and version == "gfa2" and \
-          (valid or re.match(r"^[0-9]+$", string)):
+          (valid or re.fullmatch(r"^[0-9]+$", string)):
         # a single integer is a trace with one element
         return gfapy.Trace._from_string(string)
     raise gfapy.FormatError("Alignment field contains invalid data {}"
